@@ -3,7 +3,7 @@ use rusty_pc::*;
 
 use crate::input::StringView;
 use crate::pc_specific::*;
-use crate::tokens::{MatchMode, TokenType, any_symbol_of, any_token_of};
+use crate::tokens::{any_symbol_of, any_token_of};
 use crate::{Expression, ExpressionPos, ParserError};
 
 pub(super) fn parser() -> impl Parser<StringView, Output = ExpressionPos, Error = ParserError> {
@@ -22,11 +22,11 @@ fn string_delimiter() -> impl Parser<StringView, Output = Token, Error = ParserE
 }
 
 fn inside_string() -> impl Parser<StringView, Output = String, Error = ParserError> {
-    any_token_of!(
-            types = TokenType::Eol ;
-            symbols = '"' ;
-            mode = MatchMode::Exclude)
-    .many_allow_none(StringManyCombiner)
+    // read characters, not tokens: the limits of tokens (e.g. the max length
+    // of an identifier) do not apply inside a string
+    read_p()
+        .filter(|ch: &char| *ch != '"' && *ch != '\r' && *ch != '\n')
+        .many_allow_none(StringManyCombiner)
 }
 #[cfg(test)]
 mod tests {
